@@ -197,6 +197,11 @@ def units(tier):
     cats += [("s2 " + n, ["s2", n]) for n in catalogue.S2_NAMES]
     for name, c in cats:
         u.append(("values[%s]" % name, h_values, {"cat": c}))
+    from .c15 import h_positions
+
+    # Timestamp (RFC 3339) / Duration (decimal seconds) strings are produced and parsed by C code: cross-acceptance with the
+    # reference is evaluated at solver-chosen and boundary witnesses, in repeated / optional / oneof / map-value position
+    u.append(("time-fields[Timestamp, Duration | reference JSON both ways]", h_positions, {}))
     return u
 
 
